@@ -105,14 +105,16 @@ theorem inAllowed_iff (l : List Val) (v : Val) :
 
 theorem schemaStage_fst (c : Cfg) (v w : Val) :
     (schemaStage c v).1 = some w ↔
-      (match c.schema with | none => w = v | some s => s v = some w) := by
+      (match c.schema with | none => w = v | some s => s v = .ok w) := by
   unfold schemaStage
-  cases c.schema <;> simp [eq_comm]
+  cases c.schema with
+  | none => simp [eq_comm]
+  | some s => cases h : s v <;> simp [Except.toOption, h]
 
 theorem checkStage_fst (c : Cfg) (v w : Val) :
     (checkStage c v).1 = some w ↔
       (∀ f, c.check = some f → (f v).truthy = true) ∧
-      (match c.schema with | none => w = v | some s => s v = some w) := by
+      (match c.schema with | none => w = v | some s => s v = .ok w) := by
   unfold checkStage
   cases h : c.check with
   | none => simp [schemaStage_fst]
@@ -125,7 +127,7 @@ theorem validate_spec (c : Cfg) (v w : Val) :
     validate c v = some w ↔
       (∀ l, c.allowed = some l → v.hashable = true ∧ ∃ a ∈ l, v.pyEq a = true) ∧
       (∀ f, c.check = some f → (f v).truthy = true) ∧
-      (match c.schema with | none => w = v | some s => s v = some w) := by
+      (match c.schema with | none => w = v | some s => s v = .ok w) := by
   unfold validate validateT
   cases h : c.allowed with
   | none => simp [checkStage_fst]
